@@ -101,7 +101,7 @@ def compile_many(jobs):
 
 def lib_flags(cfg):
     c = CONFIGS[cfg]
-    fl = list(c["opt"]) + list(c["san"]) + ["-I" + os.path.join(REPO, "SRC"), "-w"] + HOOK_DEFS
+    fl = list(c["opt"]) + list(c["san"]) + ["-I" + os.path.join(REPO, "SRC"), "-idirafter", os.path.join(HARNESS, "fallback"), "-w"] + HOOK_DEFS
     if c["cc"] == "clang":
         fl += ["-Wno-everything"]
     if c["fuzz"]:
@@ -137,7 +137,7 @@ def build_library(cfg):
         for p in sorted(glob.glob(os.path.join(REPO, "CBLAS", "*.c"))):
             jobs.append(([c["cc"]] + cfl, p, hd))
     # ledger + tuning (C, same sanitizer)
-    hfl = list(c["opt"]) + list(c["san"]) + ["-I" + HARNESS, "-I" + src_dir]
+    hfl = list(c["opt"]) + list(c["san"]) + ["-I" + HARNESS, "-I" + src_dir, "-idirafter", os.path.join(HARNESS, "fallback")]
     hh = headers_digest([HARNESS])
     for name in ("ledger.c", "tuning.c"):
         jobs.append(([c["cc"]] + hfl, os.path.join(HARNESS, name), hh))
@@ -167,7 +167,7 @@ def build_library(cfg):
 def harness_flags(cfg):
     c = CONFIGS[cfg]
     fl = ["-std=gnu++17"] + list(c["opt"]) + list(c["san"]) + [
-        "-I" + HARNESS, "-I" + os.path.join(REPO, "SRC"), "-Wall", "-Wno-unused-function", "-Wno-unused-variable",
+        "-I" + HARNESS, "-I" + os.path.join(REPO, "SRC"), "-idirafter", os.path.join(HARNESS, "fallback"), "-Wall", "-Wno-unused-function", "-Wno-unused-variable",
         "-Wno-unused-but-set-variable", "-Wno-sign-compare"]
     if c["i64"]:
         fl += ["-DXSDK_INDEX_SIZE=64"]
